@@ -1,7 +1,9 @@
 CFG = {
     "modules": ["Parsley.Props.C08", "Parsley.Lemmas.ConformsStab", "Parsley.Lemmas.TypeCheckSound", "Parsley.Props.C08Frag",
                 "Parsley.Lemmas.TypeCheckComplete", "Parsley.Lemmas.ConformsNorm", "Parsley.Spec.TypeCheckWF",
-                "Parsley.Props.C08Unwind"],
+                "Parsley.Props.C08Unwind",
+                "Parsley.Lemmas.TypeCheckF2Defs", "Parsley.Lemmas.TypeCheckF2Closed", "Parsley.Lemmas.TypeCheckSoundF2",
+                "Parsley.Props.C08F2"],
     "theorems": [
         "Parsley.C08.conforms_perm_alternatives", "Parsley.C08.Conforms_perm_alternatives",
         "Parsley.C08.conforms_perm_keys", "Parsley.C08.conforms_antitone",
@@ -9,6 +11,14 @@ CFG = {
         "Parsley.C08.Conforms_iff_conf_card", "Parsley.C08.gfp_eq_conf_card", "Parsley.C08.gfp_iff_Conforms",
         "Parsley.C08.machine_eq_conforms_F1", "Parsley.C08.machine_eq_conforms_F1_fuel", "Parsley.C08.machine_eq_oracle_F1",
         "Parsley.TC.Sound.checkType_F1", "Parsley.C08.shipped_namedictionary_correct",
+        # C08f: machine = specification on FRAGMENT F2 (disjunctions of private leaf alternatives): the former conjecture, proved
+        "Parsley.C08.machine_eq_conforms_F2", "Parsley.C08.machine_eq_conforms_F2_fuel", "Parsley.C08.machine_sound_F2_fuel",
+        "Parsley.C08.machine_eq_oracle_F2", "Parsley.C08.machine_eq_conforms_frag_partial",
+        "Parsley.C08.shipped_rectangle_correct", "Parsley.C08.shipped_fragment_counts",
+        "Parsley.TC.F2.checkType_F2_sound", "Parsley.TC.F2.checkType_F2_complete", "Parsley.TC.F2.checkType_F2_iff",
+        "Parsley.TC.F2.step_inv2", "Parsley.TC.F2.issueG", "Parsley.TC.F2.tryAlt", "Parsley.TC.F2.valAlt",
+        "Parsley.TC.F2.accept_sound2", "Parsley.TC.F2.unwind_idx0",
+        "Parsley.TC.F2.inF2_closed2", "Parsley.TC.F2.closed2_closedC", "Parsley.TC.F2.closed2_norm_id",
         # C08e: COMPLETENESS for ALL well-formed specifications, disjunctions included (the real checker never rejects a conforming object)
         "Parsley.C08.machine_complete", "Parsley.C08.machine_complete_fuel", "Parsley.C08.machine_reject_sound",
         "Parsley.C08.machine_eq_conforms", "Parsley.C08.machine_disagreement_is_false_accept", "Parsley.C08.machine_complete_oracle",
@@ -28,6 +38,12 @@ CFG = {
         "Parsley.C08.stale_disjunct_index_witness", "Parsley.C08.any_entry_skips_indirect_witness", "Parsley.C08.stale_error_witness",
     ],
     "partial": {
+        "Parsley.C08.machine_eq_conforms_frag_partial":
+            "machine verdict = declarative verdict on the union of the two proved fragments F1 and F2 (the widest proved statement). "
+            "Missing for the full statement: specifications with a disjunction that has a compound, shared (not private) or "
+            "indirect-carrying alternative, and Any-typed entries with a bare indirect requirement - there soundness is FALSE for the "
+            "code as it is (memo_leak_witness, shared_alternative_leak_witness, any_entry_skips_indirect_witness); completeness holds "
+            "for all well-formed specifications (machine_complete)",
         "Parsley.C08.machine_eq_conforms_partial":
             "machine verdict (code as it is, Fix.tree, run with the proved work bound) = declarative verdict. COMPLETENESS is proved for ALL "
             "well-formed specifications, disjunctions included (machine_complete: Conforms -> accept for every graph, context, object and "
@@ -38,12 +54,15 @@ CFG = {
             "EVERY graph (reference chains, undefined and cyclic references), EVERY object, arrays, heterogeneous arrays, dictionaries with "
             "required/optional/forbidden keys and wildcard entry, streams, named RECURSIVE types, predicates and indirect requirements on "
             "every node (machine_eq_conforms_F1; = the judge's oracle: machine_eq_oracle_F1). NOT proved: soundness for specifications "
-            "with a reachable disjunction. There it is false for the code as it is (memo leak: memo_leak_witness, and already with leaf "
-            "alternatives shared_alternative_leak_witness); the fragment F2 on which it is conjectured to hold (Frag.inF2: every "
-            "alternative a leaf check without indirect requirement of its own, pairwise different, and PRIVATE = occurring nowhere else "
-            "among the reachable checks) is stated and enforced by the judge on every case (a disagreement inside F1/F2 is reported as "
-            "f1-theorem-violated / f2-conjecture-violated, a false reject on a well-formed specification as "
-            "completeness-theorem-violated, never as a known finding) but not proved; Any-typed entries with a bare "
+            "with a reachable disjunction OUTSIDE fragment F2. With disjunctions the equivalence is PROVED on FRAGMENT F2 "
+            "(machine_eq_conforms_F2, Props/C08F2.lean; Frag.inF2, decidable, definition unchanged: every alternative of every reachable "
+            "disjunction a leaf check without indirect requirement of its own, alternatives pairwise different, and PRIVATE = occurring "
+            "nowhere else among the reachable checks, two lists of alternatives equal or disjoint; predicate/indirect requirement of the "
+            "disjunction free; F1's conditions elsewhere): every graph, context, object, no well-formedness hypothesis on the context. "
+            "Outside F2 soundness is false for the code as it is (memo leak: memo_leak_witness = compound alternatives, "
+            "shared_alternative_leak_witness = a leaf alternative that also types another entry). The judge evaluates the fragments on "
+            "every case (a disagreement inside F1/F2 is reported as f1-theorem-violated / f2-theorem-violated, a false reject on a "
+            "well-formed specification as completeness-theorem-violated, never as a known finding); Any-typed entries with a bare "
             "indirect requirement are decided wrongly (any_entry_skips_indirect_witness). False for Fix.orig (F1_fails_for_orig_witness)",
     },
     "n": {"quick": 3000, "thorough": 60000},
@@ -101,8 +120,15 @@ LEVEL = {
             "machine = specification for ALL graphs and objects on fragment F1 = every specification without a reachable "
             "disjunction (arrays, heterogeneous arrays, dictionaries, wildcard entries, streams, recursive named types, predicates, "
             "indirect requirements; machine_eq_conforms_F1, proof by the invariant memo + pending closed under obligations, "
-            "Lemmas/TypeCheckSound.lean) -- partial: SOUNDNESS with disjunctions is false for the code as it is (memo leak), only the "
-            "conjectured fragment F2 is stated and tested -- and eleven "
+            "Lemmas/TypeCheckSound.lean) AND on fragment F2 = disjunctions whose alternatives are private, pairwise different leaf "
+            "checks (machine_eq_conforms_F2: the memo keeps the pairs of failed alternatives, but by privacy such a pair only comes up "
+            "again as an alternative of a disjunction with the same alternatives on the same value AFTER that disjunction passed - a "
+            "failed disjunction is fatal on F2 because no set below the top has a disjunction in progress, unwind_idx0 - so skipping it "
+            "as passed is right; invariant = F1's covered-obligations invariant + AltGood with the exceptions of the disjunction in "
+            "progress, Lemmas/TypeCheckSoundF2.lean; completeness on F2 without a hypothesis on the rest of the context via the "
+            "closed-set form of the completeness proof, Lemmas/TypeCheckF2Closed.lean; 12 of the 19 registered types / 46 of the 61 "
+            "nodes of the shipped specification are in F2, the catalog type is not: shipped_fragment_counts) -- partial: SOUNDNESS "
+            "with compound, shared or indirect-carrying alternatives is false for the code as it is (memo leak) -- and eleven "
             "witness theorems. The model mirrors get_next_check/unwind/push_checks/return_check, "
             "the memo and every per-type case, one flag per defect; it agrees with the real code on verdict and error kind on every "
             "generated case. Eleven defects were found; nine are repaired (commits C08-01..09 in /repo), two remain as known findings "
